@@ -102,8 +102,27 @@ def merge_near(x, r, tol):
     return out
 
 
-def compare_xr(io, mo, exact: bool, tol=1e-9, with_r=True, scale=None):
-    """scale: magnitude of the data (max |y|); tolerances are relative to it, so that small units are not hidden"""
+def local_scales(xfit, ys):
+    """per index: the largest |y| inside the block (maximal run of equal exact fitted values) the index belongs to.
+    A block's value is computed from the block's own observations, so its rounding error is relative to THEM, not to a
+    huge observation elsewhere in the sequence."""
+    n = len(xfit)
+    out = [0.0] * n
+    i = 0
+    while i < n:
+        j = i
+        while j + 1 < n and xfit[j + 1] == xfit[i]:
+            j += 1
+        m = max(abs(float(frac(v))) for v in ys[i:j + 1])
+        for k in range(i, j + 1):
+            out[k] = m
+        i = j + 1
+    return out
+
+
+def compare_xr(io, mo, exact: bool, tol=1e-9, with_r=True, scale=None, ylocal=None):
+    """scale: magnitude of the data (max |y|); tolerances are relative to it, so that small units are not hidden.
+    ylocal: the observations; tolerances are then relative to the largest |y| of each fitted block"""
     if ("err" in io) != ("err" in mo):
         return f"outcome differs: implementation {io.get('err', 'ok')} vs model {mo.get('err', 'ok')}"
     if "err" in io:
@@ -121,9 +140,10 @@ def compare_xr(io, mo, exact: bool, tol=1e-9, with_r=True, scale=None):
             return f"block vector differs: {io['r']} vs model {mo['r']}"
         return None
     at = tol * (scale if scale else 1.0)
+    loc = local_scales(xm, ylocal) if ylocal is not None else None
     for i, (a, b) in enumerate(zip(io["x"], xm)):
-        if not close(a, b, tol, at):
-            return f"x[{i}] = {a!r} but the model gives {float(b)!r}"
+        if not close(a, b, tol, at if loc is None else tol * loc[i]):
+            return f"x[{i}] = {a!r} but the model gives {float(b)!r}" + ("" if loc is None else f" (tolerance {tol:g} x {loc[i]:g}, the largest |y| in its block)")
     if not with_r:
         return None
     ri = merge_near(io["x"], io["r"], 1e-7)
@@ -242,7 +262,14 @@ DECIMAL_LEVELS = ["0.5", "0.1", "0.2", "0.3", "0.7", "0.8", "0.9", "0.25", "0.75
 
 
 def gen_y(rng, n, style=None):
-    style = style or rng.choice(["small", "small", "digits", "dyadic", "wide", "neg", "big", "tiny"])
+    style = style or rng.choice(["small", "small", "digits", "dyadic", "wide", "neg", "big", "tiny", "range"])
+    if style == "range":
+        # ordinary small values after one or two observations that are 15-16 orders of magnitude larger (exactly representable):
+        # anything accumulated over the whole sequence (prefix sums) loses the small ones
+        ys = [rng.randint(0, 9) for _ in range(n)]
+        for _ in range(rng.choice([1, 1, 2])):
+            ys[rng.randrange(max(1, n // 2))] = rng.choice([-1, -1, 1]) * rng.choice([10**15, 10**16, 2**53])
+        return [str(Fraction(v)) for v in ys]
     if style == "small":
         ys = [rng.randint(0, 3) for _ in range(n)]
     elif style == "digits":
@@ -273,7 +300,12 @@ def gen_y(rng, n, style=None):
 
 
 def gen_w(rng, n, allow_none=True):
-    style = rng.choice((["none"] if allow_none else []) + ["ones", "int", "int", "dyadic", "float", "first", "tiny"])
+    style = rng.choice((["none"] if allow_none else []) + ["ones", "int", "int", "dyadic", "float", "first", "tiny", "hugefirst"])
+    if style == "hugefirst":
+        ws = [rng.randint(1, 3) for _ in range(n)]
+        if n:
+            ws[rng.randrange(max(1, n // 2))] = rng.choice([10**16, 10**17, 2**55])
+        return [str(Fraction(v)) for v in ws]
     if style == "none":
         return None
     if style == "ones":
